@@ -90,6 +90,14 @@ type Exec struct {
 	initAllocated []*Term
 	replayInfo    *ReplayInfo
 	curClause     *Clause
+	group         string
+	primary       bool
+}
+
+// active: the clause takes part in the current verification pass
+func (x *Exec) active(c *Clause) bool {
+	g := c.group()
+	return g == "" || g == x.group
 }
 
 type abortPath struct{ why string }
@@ -304,10 +312,7 @@ func (x *Exec) oblige(st *State, name, kind string, goal *Term, text, pos string
 	if st.dead || x.pure > 0 {
 		return
 	}
-	goals := []*Term{goal}
-	if goal.Op == "and" {
-		goals = goal.Args
-	}
+	goals := splitGoal(goal)
 	for i, g := range goals {
 		txt := text
 		if len(goals) > 1 {
@@ -327,6 +332,11 @@ func (x *Exec) oblige(st *State, name, kind string, goal *Term, text, pos string
 }
 
 func (x *Exec) safety(st *State, in ssa.Instruction, kind string, goal *Term, text string) {
+	if !x.primary && x.top != nil && !x.initMode && x.pure == 0 {
+		// secondary passes (clause groups) re-run the same code: safety was checked in the primary pass
+		st.assume(goal)
+		return
+	}
 	x.oblige(st, x.obName(st, in, kind), kind, goal, text, x.posOf(in), nil)
 }
 
@@ -995,7 +1005,7 @@ func (x *Exec) makeSlice(st *State, v *ssa.MakeSlice) Val {
 func (x *Exec) zeroStructElems(st *State, elem types.Type, reg *Term) {
 	e := x.e
 	s := elem.Underlying().(*types.Struct)
-	k := Var("k!z", e.ar.I())
+	k := Var("$b_kz", e.ar.I())
 	for i := 0; i < s.NumFields(); i++ {
 		ft := s.Field(i).Type()
 		if isStruct(ft) {
@@ -1308,10 +1318,14 @@ func (x *Exec) loopEnter(st *State, fr *Frame, h *loopHdr) bool {
 	}
 	if ls != nil {
 		for _, c := range ls.Inv {
-			if !x.wantClause(c) {
+			if !x.wantClause(c) || !x.active(c) {
 				continue
 			}
 			g := x.evalBool(st, env, c)
+			if c.group() == "" && !x.primary {
+				st.assume(g)
+				continue
+			}
 			x.oblige(st, fmt.Sprintf("%s/inv-entry#%d", base, c.Ord), "inv-entry", g, c.Text, fmt.Sprintf("%s:%d", c.File, c.Line), c.Tags)
 		}
 	}
@@ -1340,7 +1354,9 @@ func (x *Exec) loopEnter(st *State, fr *Frame, h *loopHdr) bool {
 	env = x.envAt(st, fr)
 	if ls != nil {
 		for _, c := range ls.Inv {
-			st.assume(x.evalBool(st, env, c))
+			if x.active(c) {
+				st.assume(x.evalBool(st, env, c))
+			}
 		}
 	}
 	snap := &loopSnap{heap: copyHeap(st.heap)}
@@ -1372,13 +1388,17 @@ func (x *Exec) loopBack(st *State, fr *Frame, h *loopHdr) {
 		base = fmt.Sprintf("%s/loop%d@%s", x.qname, h.ord, e.qualName(fr.fn))
 	}
 	for _, c := range ls.Inv {
-		if !x.wantClause(c) {
+		if !x.wantClause(c) || !x.active(c) {
 			continue
 		}
 		g := x.evalBool(st, env, c)
+		if c.group() == "" && !x.primary {
+			st.assume(g)
+			continue
+		}
 		x.oblige(st, fmt.Sprintf("%s/inv-step#%d", base, c.Ord), "inv-step", g, c.Text, fmt.Sprintf("%s:%d", c.File, c.Line), c.Tags)
 	}
-	if ls.Dec != nil {
+	if ls.Dec != nil && x.primary {
 		snap := fr.loops[h.block]
 		if snap != nil && snap.measure != nil {
 			m := x.evalTerm(st, env, ls.Dec)
@@ -1399,4 +1419,27 @@ func (x *Exec) wantClause(c *Clause) bool {
 		return true
 	}
 	return c.hasTag(x.prop)
+}
+
+// splitGoal: conjunctions, and implications with a conjunctive consequent, become separate goals
+func splitGoal(g *Term) []*Term {
+	switch g.Op {
+	case "and":
+		var out []*Term
+		for _, a := range g.Args {
+			out = append(out, splitGoal(a)...)
+		}
+		return out
+	case "=>":
+		cs := splitGoal(g.Args[1])
+		if len(cs) <= 1 {
+			return []*Term{g}
+		}
+		var out []*Term
+		for _, c := range cs {
+			out = append(out, Implies(g.Args[0], c))
+		}
+		return out
+	}
+	return []*Term{g}
 }
